@@ -15,6 +15,13 @@ double bspline(const double* knots, double x, int i, int n);
 double bspline_deriv(const double* knots, double x, int i, int n, unsigned order);
 
 /*
+ * The same, continuous from the left at the knots (knots[i] < x <= knots[i+1]).
+ */
+
+double bspline_left(const double* knots, double x, int i, int n);
+double bspline_deriv_left(const double* knots, double x, int i, int n, unsigned order);
+
+/*
  * A brain-dead reimplementation of de Boor's BSPLVB, which generates
  * the values of the non-zero B-splines at x from the bottom up without
  * unnecessarily recalculating terms. 
